@@ -768,6 +768,7 @@ func checkC18(args []string) int {
 				run.Violation("codec:decoder-memory-blowup", fmt.Sprintf("resident memory reached %d MiB while decoding: some decoder allocates according to a misread length prefix; run aborted", rss>>20), nil)
 				run.Cov["aborted"] = "memory watchdog"
 				run.Finish()
+				c18RemoveAllScratch()
 				os.Exit(1)
 			}
 		}
